@@ -26,6 +26,8 @@ PROPS = ['C01', 'C02', 'C03', 'C10', 'C20']
 
 def _digest_range(args):
     prop, seed, lo, hi = args
+    from . import cleanroom
+    cleanroom.ensure()
     mod = runner.load_check(prop)
     cfg = mod.config('quick', seed) if hasattr(mod, 'config') else {}
     out = []
